@@ -222,7 +222,8 @@ def run(F, R, tier):
     R.rule("D2k", "fill_block_entry replaces-or-creates the entry by key (data[block][entry] = ...); the only "
                   "append is of a fresh empty block when the block does not exist", 4)
     for f in F.fns("gm2calc::GM2_slha_io::fill_block_entry"):
-        E = Evaluator(F, inline=lambda n, g: False)
+        # file-local free helpers (a factory of the empty block, a formatting function) are looked through
+        E = Evaluator(F, inline=lambda n, g, f=f: g.get("file") == f["file"] and not g.get("method") and not g.get("externC"))
         v, fr = E.function_value(f)
         inst = "fill_block_entry(%s)" % ", ".join((p["t"] or "").replace("const std::basic_string<char> &", "string")
                                                     for p in f["params"])
